@@ -22,12 +22,18 @@ type PathState struct {
 	alias  map[ssa.Value]ssa.Value  // phi -> incoming value on this path
 	bools  map[ssa.Value]bool       // known boolean values (conditions decided earlier on the path)
 	cells  map[*ssa.Alloc]ssa.Value // last value stored into a local cell on this path
+	// lastLoad: the latest load of a cell that is not tracked in cells (it escapes, e.g. into a closure), valid until
+	// the next instruction that could write it (any call, store, send…)
+	lastLoad map[*ssa.Alloc]ssa.Value
 	// Counts is free for the client: per-path counters/marks, copied at every branch.
 	Counts map[string]int
 }
 
 func (s *PathState) clone() *PathState {
-	n := &PathState{Blocks: append([]*ssa.BasicBlock{}, s.Blocks...), nil_: map[ssa.Value]Nilness{}, alias: map[ssa.Value]ssa.Value{}, bools: map[ssa.Value]bool{}, cells: map[*ssa.Alloc]ssa.Value{}, Counts: map[string]int{}}
+	n := &PathState{Blocks: append([]*ssa.BasicBlock{}, s.Blocks...), nil_: map[ssa.Value]Nilness{}, alias: map[ssa.Value]ssa.Value{}, bools: map[ssa.Value]bool{}, cells: map[*ssa.Alloc]ssa.Value{}, lastLoad: map[*ssa.Alloc]ssa.Value{}, Counts: map[string]int{}}
+	for k, v := range s.lastLoad {
+		n.lastLoad[k] = v
+	}
 	for k, v := range s.Counts {
 		n.Counts[k] = v
 	}
@@ -143,8 +149,19 @@ func EnumPaths(fn *ssa.Function, from *ssa.BasicBlock, fromIdx int, init *PathSt
 					if a, ok := x.X.(*ssa.Alloc); ok {
 						if cv, ok := s.cells[a]; ok {
 							s.alias[x] = cv
+						} else if prev, ok := s.lastLoad[a]; ok {
+							// a second load of a shared cell with nothing in between that could write it reads the same value
+							s.alias[x] = prev
+						} else {
+							s.lastLoad[a] = x
 						}
 					}
+				}
+			}
+			switch ins.(type) {
+			case ssa.CallInstruction, *ssa.Store, *ssa.Send, *ssa.MapUpdate, *ssa.Select:
+				if len(s.lastLoad) > 0 {
+					s.lastLoad = map[*ssa.Alloc]ssa.Value{}
 				}
 			}
 			if h.Instr != nil {
@@ -214,7 +231,7 @@ func EnumPaths(fn *ssa.Function, from *ssa.BasicBlock, fromIdx int, init *PathSt
 
 // NewPathState returns an empty state.
 func NewPathState() *PathState {
-	return &PathState{nil_: map[ssa.Value]Nilness{}, alias: map[ssa.Value]ssa.Value{}, bools: map[ssa.Value]bool{}, cells: map[*ssa.Alloc]ssa.Value{}, Counts: map[string]int{}}
+	return &PathState{nil_: map[ssa.Value]Nilness{}, alias: map[ssa.Value]ssa.Value{}, bools: map[ssa.Value]bool{}, cells: map[*ssa.Alloc]ssa.Value{}, lastLoad: map[*ssa.Alloc]ssa.Value{}, Counts: map[string]int{}}
 }
 
 // enter binds the phis of succ for the edge pred->succ.
